@@ -201,7 +201,7 @@ class Explorer:
         if self.pos < len(self.plan):
             e = self.plan[self.pos]
             if e[2] != tag:
-                raise HarnessError(f"non-deterministic replay at depth {self.pos}: {e[2]} vs {tag}")
+                raise HarnessError(f"non-deterministic replay at depth {self.pos}: {e[2]} vs {tag} :: {getattr(self, '_last_cond', None)}")
             self.pos += 1
             return e[1][e[0]], True
         if self.split_depth is not None and self.pos >= self.split_depth:
@@ -237,6 +237,7 @@ class Explorer:
                     models[side] = m
             return opts
 
+        self._last_cond = cond
         d, replayed = self._next(("d", cond.hash()), options)
         self.solver.add(cond if d else z3.Not(cond))
         if replayed:
@@ -244,6 +245,38 @@ class Explorer:
         else:
             self.model = models.get(d)
         return d
+
+    def concretize(self, e, limit=64):
+        """fork over every feasible value of the integer term `e` (finite domain required); replay-deterministic"""
+        e = z3.simplify(e)
+        if z3.is_int_value(e):
+            return e.as_long()
+
+        def options():
+            vals = []
+            self.solver.push()
+            try:
+                while True:
+                    t = time.time()
+                    r = self.solver.check()
+                    self.stats.queries += 1
+                    self.stats.solver_s += time.time() - t
+                    if r == z3.unknown:
+                        raise Inconclusive("solver unknown in concretize")
+                    if r != z3.sat:
+                        break
+                    v = self.solver.model().eval(e, model_completion=True).as_long()
+                    vals.append(v)
+                    if len(vals) > limit:
+                        raise HarnessError(f"unbounded concretisation of {e}")
+                    self.solver.add(e != v)
+            finally:
+                self.solver.pop()
+            return sorted(vals)
+        v, _ = self._next(("z", e.hash()), options)
+        self.solver.add(e == v)
+        self.model = None
+        return v
 
     def choose(self, n, label="c") -> int:
         if isinstance(n, int):
@@ -510,6 +543,8 @@ class ConcreteRun:
             except Exception as e:
                 tb = traceback.extract_tb(e.__traceback__)
                 where = f"{tb[-1].filename.split('/')[-1]}:{tb[-1].lineno}" if tb else ""
+                if tb and any(tb[-1].filename.startswith(p) for p in ("/verif/harness", "/verif/symex", "/verif/stubs")):
+                    return False, f"replay mismatch: exception raised by the harness itself at {where}: {type(e).__name__}: {str(e)[:120]}"
                 return True, f"unexpected {type(e).__name__} at {where}: {str(e)[:200]}"
             if prop is None or prop is True:
                 return False, "property holds concretely"
